@@ -39,10 +39,15 @@ MANIFEST = dict(
          'C11_written_paths_inside_outdir_every_stem and c11_targets_distinct[_either/_types_only]: for EVERY namespace-file stem '
          'string (the model takes the stem through pathlib: separators, "..", absolute, empty) on every run of build_namespace_tree '
          'that does not raise (build_checked, instantiated with the regenerated facts pin_c11path_stem_validated / '
-         'pin_c11tree_stem_check: which pinned shape /repo has); while Namespace.__init__ does not validate the stem the premise '
-         'stem_valid remains and C11_written_paths_inside_outdir_refuted gives the witnesses "/x", "../../../e" (known finding '
-         'F-NS-STEM-PATH, reproduced on nnvg; fix: design_notes/C11_stem_validate_fix.patch). C11_py_reference_path_partial (Python '
-         'package/module reference = directory chain when the scanned id types agree with "path"). REAL STROPPERS (C09 StropInst, identifier type path, '
+         'pin_c11tree_stem_check, both obligations now: C11_stem_validated_live, C11_stem_collision_check_live; the pre-fix shapes are '
+         'no longer accepted; F-NS-STEM-COLLIDE, F-NS-STEM-PATH fixed, their refutations in History/C11_history.v). SUPPORT FILES: '
+         'C11_support_paths_inside_outdir[_either]: for EVERY support_namespace string, on every run in which '
+         'Language.support_namespace does not raise, every support file is outdir ++ safe components (support_targets instantiated '
+         'with the regenerated pin_c11support_ns_validated; while the validation is not in /repo the premise sn_valid remains and '
+         'C11_support_paths_inside_outdir_refuted gives the witness "/esc": known finding F-SUPPORT-NS-PATH, reproduced on nnvg, fix '
+         'design_notes/C11_support_namespace_fix.patch; C11_support_ns_validated_live becomes an obligation when the fix is recorded '
+         'as landed). PYTHON REFERENCES: C11_py_reference_id_types_are_any (scan), C11_py_any_path_agree (the real Python stropper '
+         'gives the same token for id types "any" and "path" on every DSDL name), C11_py_reference_is_directory_chain. REAL STROPPERS (C09 StropInst, identifier type path, '
          'all three languages, all DSDL names): C11_real_names_ident_like, C11_real_written_paths_inside_outdir (no stropping '
          'hypothesis left), C11_real_paths_equal_iff_fold (injectivity modulo the folding relation, exactly), '
          'C11_real_fold_is_equality_on_clean, C11_real_path_injective_on_clean, C11_real_fold_witness (ns.class.T / ns._class.T -> one '
@@ -590,7 +595,7 @@ def model_input(r: dict, mode, prefix_quirk: bool = False) -> str:
             lines.append('S %s %s' % (enc(a), enc(b)))
     for t in r['order']:
         lines.append('T ' + enc_ty(t))
-    if r.get('with_support') and r.get('sn_overridden'):
+    if r.get('sn_overridden'):      # the harness reads Language.support_namespace in every case (as every generator run does)
         lines.append('SN ' + enc(r['sn']))
     for n in r['nodes']:     # namespaces reachable from the root of the implementation's tree: linked before their folded twins
         lines.append('P ' + enc_key(n['key']))
@@ -894,12 +899,24 @@ def load_fragment(chk: core.Check) -> None:
 def main(chk: core.Check, replay: typing.Optional[str] = None) -> int:
     load_fragment(chk)
     quick = chk.tier == 'quick'
-    n_cases, n_cli = (150, 10) if quick else (1500, 120)
+    n_cases, n_cli = (150, 16) if quick else (1500, 120)
     if replay:
         doc = json.load(open(replay))
         cases = [doc['case']] if 'case' in doc else gen_cases(chk.rng, n_cases, n_cli)
     else:
         cases = gen_cases(chk.rng, n_cases, n_cli)
+
+    # the witness of EVERY recorded C11 finding, whatever its status, is a case of every run: for a finding marked `fixed` nothing is
+    # suppressed, so a behaviour that comes back (a reverted fix) is a VIOLATION with the witness as failing input
+    if not (replay and len(cases) == 1):
+        for e in chk.known:
+            w = e.get('witness', {})
+            if 'types' in w and 'lang' in w:
+                cases.append(dict(id='w_' + e['id'].replace('-', '_'), types=w['types'], lang=w['lang'], outdir='rel', shuffle=0, ext=None,
+                                  stem=w.get('stem'), es=None, user=None, sn=w.get('sn'),
+                                  generate='cli-support' if w.get('sn') is not None else 'api'))
+        cases.append(dict(id='k_sn_ok', types=[[['ns', 'a'], 'T', 1, 0], [['ns'], 'U', 1, 0]], lang='c', outdir='abs', shuffle=1, ext=None, stem=None,
+                          es=None, user=None, sn='my.support_ns', generate='cli-support'))
 
     # 1. proof obligations
     res = core.coq_check('C11', ['uni', 'strop', 'pin_c11tree', 'pin_c11path', 'pin_c11gen', 'pin_c11support', 'c11_scan'])
